@@ -328,6 +328,11 @@ func (o *ObjectSchema) getFieldReflection(propertyID string, v reflect.Value, pr
 	if val.Interface() == nil {
 		return nil
 	}
+	if property.Disabled && val.IsZero() {
+		// A disabled property cannot be given, so its field is never filled in; the zero value a non-pointer field
+		// holds anyway is not a value in use (Serialize would emit it and Unserialize refuse it again).
+		return nil
+	}
 	return &val
 }
 
